@@ -4,7 +4,7 @@
    threads with every program of submissions (six kinds, job bodies that submit again or call stop() on their own
    pool) and explicit stop() calls, followed by the destructor.  cran / cdrop / ccanc count events, the places a
    closure can be in (queue, swapped-out list of a stop() in progress) are the real data structures of the model. *)
-From Cocls Require Import Base BaseProofs PoolDefs PoolProofs.
+From Cocls Require Import Base BaseProofs PoolDefs PoolProofs PoolLive.
 
 (* exactly-once as conservation: at every moment a closure is in exactly one of
    invoked | destroyed un-run | queued | swapped out by one stop() in progress *)
@@ -50,10 +50,7 @@ Print Assumptions c11_no_forgotten_waiter.
    on a stopped pool end with the closure destroyed, nothing run, nothing cancelled (known finding F-C11) *)
 Theorem c11_bare_handle_forgotten_refuted : exists ops s,
   reachable ops s /\ terminal s /\ forgotten s = true.
-Proof.
-  exists [[1;1]; [3;0]; [2;0;4;0;0]; [2;0;1;0;0]]%Z. eexists. split; [apply final_reachable|].
-  destruct bare_forgotten_witness as [A B]. split; [apply terminalb_sound, A|exact B].
-Qed.
+Proof. exact bare_handle_forgotten_refuted. Qed.
 Print Assumptions c11_bare_handle_forgotten_refuted.
 
 (* when everything has returned the destructor has run, every worker has left worker(), nothing is queued and
@@ -64,6 +61,15 @@ Theorem c11_terminal_all_joined : forall ops s,
   forall i p, T s i = Some p -> nclients s <= i -> p = WExit.
 Proof. exact terminal_all_joined. Qed.
 Print Assumptions c11_terminal_all_joined.
+
+(* stop() and the destructor never deadlock, whatever the timing and whoever calls stop() (a client, the
+   destructor, a job on one of the pool's own workers): every reachable state in which some thread has not
+   finished has an enabled step (a thread at a lock, a sleeping worker with a wake-up token, a joiner whose
+   target has exited, or the destructor whose lifetime precondition holds) *)
+Theorem c11_stop_no_deadlock : forall ops s,
+  reachable ops s -> ~ terminal s -> exists i, enabled s i = true.
+Proof. exact stop_no_deadlock. Qed.
+Print Assumptions c11_stop_no_deadlock.
 
 (* non-vacuity: 2 workers, a job that stops its own pool while another client submits; the run reaches a
    terminal state in which one job ran on worker 2 and the other submissions were cancelled *)
